@@ -5,6 +5,7 @@ package main
 import (
 	"fmt"
 	"go/ast"
+	"go/token"
 	"go/types"
 	"sort"
 	"strings"
@@ -29,6 +30,110 @@ func rulesC12(c *Ctx) {
 	ruleDoModifyNI(c)
 	ruleDoGetGuards(c)
 	ruleRecoverOnConversion(c)
+	ruleExactInstanceLookup(c)
+}
+
+// The RPC handlers reject unknown and empty network-instance names by looking
+// the name up (Flush has no other test). The lookup must therefore be exact:
+// the holder returned is niRIB[<the name given>], the name is never rewritten
+// (an empty name must not silently become the default instance).
+func ruleExactInstanceLookup(c *Ctx) {
+	const rule = "NI-LOOKUP-EXACT"
+	fi := c.need("rib", "RIB", "NetworkInstanceRIB")
+	if fi == nil {
+		return
+	}
+	info := fi.Pkg.TypesInfo
+	ps := paramObjs(info, fi.Decl)
+	if len(ps) != 1 || ps[0] == nil {
+		c.vanished(rule, fi.Name, "name parameter", "NetworkInstanceRIB does not take exactly one name")
+		return
+	}
+	name := ps[0]
+	c.Sites++
+	bad := ""
+	lookups := 0
+	ast.Inspect(fi.Decl.Body, func(n ast.Node) bool {
+		switch x := n.(type) {
+		case *ast.AssignStmt:
+			for _, l := range x.Lhs {
+				if objOfIdent(info, l) == name {
+					bad = "the requested name is rewritten before the lookup (" + types.ExprString(x.Lhs[0]) + " = " + types.ExprString(x.Rhs[0]) + "): a name the caller must reject (e.g. the empty name) is answered with another instance"
+				}
+			}
+		case *ast.IndexExpr:
+			if _, p := selectorPath(info, x.X); len(p) > 0 && p[len(p)-1] == "niRIB" {
+				lookups++
+				if objOfIdent(info, x.Index) != name {
+					bad = "the holder map is indexed by " + types.ExprString(x.Index) + ", not by the name given"
+				}
+			}
+		case *ast.UnaryExpr:
+			if x.Op == token.AND && objOfIdent(info, x.X) == name {
+				bad = "the address of the name parameter escapes"
+			}
+		}
+		return true
+	})
+	// and the result is that lookup: (holder, found) of the same index expression
+	okRet := false
+	ast.Inspect(fi.Decl.Body, func(n ast.Node) bool {
+		rs, ok := n.(*ast.ReturnStmt)
+		if !ok {
+			return true
+		}
+		okRet = true
+		switch len(rs.Results) {
+		case 1:
+			if _, isIdx := ast.Unparen(rs.Results[0]).(*ast.IndexExpr); !isIdx {
+				okRet = false
+			}
+		case 2:
+			for _, r := range rs.Results {
+				if v, ok := objOfIdent(info, r).(*types.Var); ok {
+					if as := commaOkLookupOf(info, fi.Decl, v); as == nil {
+						okRet = false
+					}
+				} else {
+					okRet = false
+				}
+			}
+		default:
+			okRet = false
+		}
+		return true
+	})
+	if bad == "" && !okRet {
+		bad = "the function does not return the (holder, found) pair of the map lookup"
+	}
+	c.check(bad == "" && lookups == 1, rule, fi.Name, "returns niRIB[name] for exactly the name given", c.P.pos(fi.Decl.Pos()), "one lookup, name never reassigned", bad)
+}
+
+// commaOkLookupOf: v is declared by `x, ok := m[k]` (returns that statement).
+func commaOkLookupOf(info *types.Info, fd *ast.FuncDecl, v *types.Var) *ast.AssignStmt {
+	var out *ast.AssignStmt
+	n := 0
+	ast.Inspect(fd.Body, func(m ast.Node) bool {
+		as, ok := m.(*ast.AssignStmt)
+		if !ok {
+			return true
+		}
+		for _, l := range as.Lhs {
+			if objOfIdent(info, l) == v {
+				n++
+				if len(as.Lhs) == 2 && len(as.Rhs) == 1 {
+					if _, isIdx := ast.Unparen(as.Rhs[0]).(*ast.IndexExpr); isIdx {
+						out = as
+					}
+				}
+			}
+		}
+		return true
+	})
+	if n == 1 {
+		return out
+	}
+	return nil
 }
 
 // R12.2b: candidateRIB validates on every success path
@@ -137,7 +242,7 @@ func ruleCheckCandidateTable(c *Ctx) {
 			return true
 		}
 		tabs := map[string]bool{}
-		ast.Inspect(be.X, func(m ast.Node) bool {
+		ast.Inspect(resolveLocal(info, fi.Decl, be.X), func(m ast.Node) bool {
 			if call, ok := m.(*ast.CallExpr); ok {
 				if id, ok := call.Fun.(*ast.Ident); ok && id.Name == "len" && len(call.Args) == 1 {
 					if t := tableOfExpr(info, call.Args[0]); t != "" {
